@@ -277,13 +277,16 @@ MANIFEST = {
     "technique": "Lean 4 theorems on the strided-descriptor model (replaying a view chain on an array of the same layout yields "
                  "the same positions, hence a view; counterexample for a different layout) + correspondence of the reshape "
                  "view-or-copy rule with NumPy + memory-sharing oracle over every arrival order of the first contribution",
-    "text": "view_grad_is_view: if the base's gradient has the layout of the base's data (H_layout), replaying any chain of view "
-            "ops on it selects exactly the positions the views select in the data — so the view's gradient is available, equals "
-            "the chain applied to the base's gradient and shares its memory, for every chain of slices, transposes, reshapes, new "
-            "axes. view_grad_neg: without H_layout the statement is false in the model (base (2,3) whose gradient is F-ordered, "
-            "view reshape(6): NumPy must copy). The descriptor model's view-or-copy rule is compared with NumPy on random strided "
-            "windows; the oracle checks value, availability and memory sharing for every (view, base) pair, with each consumer "
-            "contributing first.",
+    "text": "view_grad_is_view: if the base's gradient array is laid out exactly like the base's data (H_layout), "
+            "replaying any chain of view ops on it takes the decisions it takes on the data — same success, every "
+            "step a view iff it is one on the data, same positions — so the view's gradient is available, equals "
+            "the chain applied to the base's gradient and shares its memory, for every chain of slices, "
+            "transposes, reshapes, new axes. view_grad_neg: without H_layout the statement is false in the "
+            "descriptor model (base (2,3), gradient F-ordered, view reshape(6): NumPy must copy). "
+            "reshape_contig_is_view / permuting_views_never_copy characterise when replays are views. The "
+            "descriptor model's view-or-copy rule is compared with NumPy on random strided windows; the oracle "
+            "checks value, availability and memory sharing for every (view, base) pair, with each consumer "
+            "contributing first (17 view chains x all orderings of up to 3 of 9 consumers).",
     "note": "Trusted: Lean kernel, standard axioms, the harness; H_layout is a hypothesis the proof forces and is monitored on "
             "the implementation in every case (it is what the first-contribution copy must guarantee).",
 }
